@@ -325,11 +325,15 @@ func (in *poolInst) apply(op string) (ok bool, viol [][2]string) {
 		in.withClock(func() { removed = in.mp.RemoveAliveTimeoutTxs(time.Duration(d)) })
 		// model: evicted = held, not ready (nonce >= pending), not batched, older than d
 		cnt := uint64(0)
+		// after a foreign commit the pool may still hold transactions the model counts as
+		// superseded (the known after-foreign-commit finding): the eviction count is then
+		// not judged
 		anyTainted := false
+		for _, t := range m.tainted {
+			anyTainted = anyTainted || t
+		}
 		for acct, hm := range m.held {
-			if m.tainted[acct] && len(hm) > 0 {
-				anyTainted = true
-			}
+			_ = acct
 			for n, name := range hm {
 				if n >= m.pend(acct) && !m.batched[fmt.Sprintf("%s/%d", acct, n)] && in.now-m.arrival[name] > d {
 					delete(hm, n)
